@@ -44,7 +44,9 @@ Definition is_expired (k : key) (now : Z) : bool :=
   if f =? 0 then false else (Z.of_N f + timeOffset <? now)%Z.
 (* Key.SetExpires(time.Unix(t, 0)) *)
 Definition expiry_field_of (t : Z) : N :=
-  u32z (if (0 <? t)%Z then t - timeOffset else t)%Z.
+  if (t =? 0)%Z then 0
+  else let d := (t - timeOffset)%Z in
+       if (d <? 1)%Z then 1 else if (4294967295 <? d)%Z then 4294967295 else Z.to_N d.
 
 (* ---- strings ---- *)
 Fixpoint split_on (s : N) (d : bytes) (cur : bytes) : list bytes :=
